@@ -287,6 +287,27 @@ class Ctx:
                   flush=True)
         rc = 0
         os.makedirs(os.path.join(VERIF, "replays"), exist_ok=True)
+        if getattr(self, "replay", None):
+            # replay mode: the whole generator is deterministic (seed from the replay file), so the
+            # recorded case is re-executed at its place in the run; report whether the same oracle
+            # key / the same broken theorem shows up again.  Evidence is not rewritten.
+            rp = self.replay
+            if rp.get("key"):
+                again = [v for v in violations if v["key"] == rp["key"]]
+                for v in again[:1]:
+                    print("# replay: reproduced key=%s: %s" % (v["key"], v.get("what", "")), flush=True)
+                    print("# replay: observed=%s" % json.dumps(v.get("observed"))[:600], flush=True)
+                reproduced = bool(again)
+            else:
+                reproduced = any(n == rp.get("theorem") for _, n, _ in self.broken)
+                if reproduced:
+                    print("# replay: %s still does not check" % rp.get("theorem"), flush=True)
+            if reproduced:
+                print("VIOLATION property=%s replay=%s%s" % (self.pid, rp.get("_path", "?"),
+                      "" if rp.get("key") else " no-failing-input-found"), flush=True)
+                return 1
+            print("# replay: not reproduced on the current tree", flush=True)
+            return 0
         if violations:
             # group by key, one replay per distinct key (first 5)
             bykey = {}
